@@ -26,7 +26,7 @@ META = {
     "assumptions": ["labels are concrete (array sizes, hashing): relabellings are drawn from the pool "
                     "{0,1,2,3,5,7,11,42,99999,100000,250000} incl. both sides of the 1e5 switch of _sum_by_group_numba",
                     "reals instead of doubles", "same arbitrary pre-state / same update vector in both runs (identity-named)"],
-    "bound": {"quick": "9 base structures x 2 relabellings (labels + creation order; row permutations) x {numpy, numba py_func}, "
+    "bound": {"quick": "10 base structures x 2 relabellings (labels + creation order; row permutations) x {numpy, numba py_func}, "
                        "hydraulic and sequential",
               "thorough": "core + 30 random structures x 4 relabellings"},
     "outside": ["symbolic labels", "networks larger than J<=6"],
@@ -51,7 +51,7 @@ def with_explicit_indices(spec):
     return s
 
 
-def relabel(spec, rng, labels=True, order=True, rows=True):
+def relabel(spec, rng, labels=True, order=True, rows=True, cyclic=False):
     """B-side spec + ident map (B label -> A label) + row map (A label -> B label)"""
     a = with_explicit_indices(spec)
     b = copy.deepcopy(a)
@@ -75,6 +75,10 @@ def relabel(spec, rng, labels=True, order=True, rows=True):
     maps = {}
     for t, idxs in by_t.items():
         new = rng.sample(POOL, len(idxs)) if labels else list(idxs)
+        if labels and cyclic and len(new) >= 3:
+            # sorting permutation that is not its own inverse (an n-cycle)
+            new = sorted(new)
+            new = new[1:] + new[:1]
         maps[t] = dict(zip(idxs, new))
         ident[ELEM_TABLE[t]] = {nb: na for na, nb in maps[t].items()}
         fwd[ELEM_TABLE[t]] = dict(maps[t])
@@ -102,7 +106,7 @@ def relabel(spec, rng, labels=True, order=True, rows=True):
 def jobs(tier, seed):
     out = []
     specs = [catalog.w_line3(), catalog.w_mesh4(), catalog.w_components(), catalog.w_oos(), catalog.g_line3(),
-             catalog.g_components(), catalog.w_pi_valve(), catalog.w_circ_loop(), catalog.w_circ_mass()]
+             catalog.g_components(), catalog.w_pi_valve(), catalog.w_circ_loop(), catalog.w_circ_mass(), catalog.w_heat_line()]
     rng = random.Random(6000 + seed)
     for i in range(0 if tier == "quick" else 30):
         specs.append(catalog.random_spec(rng, name="rand%d_s%d" % (i, seed)))
@@ -110,7 +114,7 @@ def jobs(tier, seed):
     for s in specs:
         for v in range(nvar):
             for numba in (False, True):
-                mode = "sequential" if s["name"].startswith("w_circ") else "hydraulics"
+                mode = "sequential" if s["name"].startswith(("w_circ", "w_heat")) else "hydraulics"
                 out.append({"name": "%s/v%d/%s" % (s["name"], v, "numba" if numba else "numpy"), "spec": s, "variant": v,
                             "numba": numba, "pfmode": mode, "vseed": 100 * seed + v})
     return out
@@ -120,7 +124,8 @@ def worker(job):
     H.install(numba_pyfunc=bool(job["numba"]))
     rng = random.Random(job["vseed"] * 7919 + hash(job["spec"]["name"]) % 1000)
     v = job["variant"]
-    a, b, ident, fwd = relabel(job["spec"], rng, labels=(v % 2 == 0) or v >= 2, order=True, rows=(v % 2 == 1) or v >= 2)
+    a, b, ident, fwd = relabel(job["spec"], rng, labels=(v % 2 == 0) or v >= 2, order=True, rows=(v % 2 == 1) or v >= 2,
+                                cyclic=(v == 0))
     kw = dict(mode=job["pfmode"], use_numba=bool(job["numba"]))
     ra = equiv.RunSpec(a, kw)
     rb = equiv.RunSpec(b, kw, ident=ident, row_map=lambda tbl, ix: fwd.get(tbl, {}).get(ix, ix))
